@@ -581,6 +581,9 @@ func (s *session) handleLogon(msg *Message) error {
 	s.sentReset = false
 
 	s.peerTimer.Reset(time.Duration(float64(1.2) * float64(s.HeartBtInt)))
+	// The heartbeat timer is one-shot and re-armed only by outbound messages: an initiator whose Logon was
+	// answered after more than a heartbeat interval would otherwise stay silent until it next sends something.
+	s.stateTimer.Reset(s.HeartBtInt)
 	s.application.OnLogon(s.sessionID)
 
 	// Evaluate tag 789 to see if we end up with an implied gapfill/resend.
